@@ -106,6 +106,16 @@ func gen(g *vh.Gen) {
 		store := []string{"file", "mem"}[i%2]
 		g.Emit("stress", store, "0", "0", strconv.Itoa(g.Intn(1000000)), "4", strconv.Itoa(g.N(300, 800)))
 	}
+	// the retention scanner as a concurrent party: deliveries fall between its snapshot and its removals
+	for _, store := range []string{"mem", "file"} {
+		for p := 0; p <= g.N(7, 14); p++ {
+			g.Emit("scan", store, "1:90:e,1:91:e,2:92:f", "1:1", strconv.Itoa(p))
+		}
+		for p := 0; p <= g.N(5, 12); p++ {
+			g.Emit("scan", store, "1:90:e,2:91:e,4:92:e", "2:1,1:2", strconv.Itoa(p))
+		}
+		g.Emit("scan", store, "1:90:e,1:91:f,2:92:e", "1:1,2:2", strconv.Itoa(g.Intn(10)))
+	}
 	// fault family: the index of mailbox 1 can no longer be rewritten (file store, with and without cap)
 	g.Emit("fault", "2", "2", "a:1:1:10,l:1,l:2,a:2:2:10")
 	g.Emit("fault", "3", "3", "a:1:1:10,a:2:2:10,l:2,v")
